@@ -5,15 +5,18 @@
     * `TimingConsts Float`                           — HERE (`timingConsts_float`, kernel evaluation of the constants);
     * `LimitRep IeeeRep64`                           — `limitRep_float` (Props/C04DecodedIeee.lean);
     * `CodecLaws Float IeeeRep64`                    — `C02.codecLaws_float_ieee`.
-  What REMAINS: the arithmetic law `SvLaws Float IeeeRep64` (`−100 / v` is a number within ±(2³¹−1) for `v` in `[0.1, 10]`
-  resp. `[0.01, 10]` — true of IEEE division, which is monotone in the denominator, but Lemmas/FloatArithMono.lean only has
-  monotonicity in the NUMERATOR, so it is not proved here) and the residual `CollectedTimesInLimit`.
+    * `SvLaws Float IeeeRep64`                       — HERE (`svLaws_float`): `−100 / v` is a number within ±(2³¹−1) for `v` in
+      `[0.1, 10]` resp. `[0.01, 10]`, because IEEE division of a negative number is monotone in a positive denominator
+      (`FAM.div_le_div_left_neg_float`, Lemmas/FloatDivAnti.lean) and the end points are kernel-evaluated.
+  What REMAINS is only the residual `CollectedTimesInLimit` (`decoded_repTimingMap_partial_ieee`,
+  `timing_lines_accepted_decoded_ieee`). The `_float` versions keep `SvLaws` as a hypothesis.
   With no hypothesis at all: `decoded_stored_points_inv_float` — the stored control points of every decoded
   `Beatmap<f64/f32>` are strictly sorted, within the parse limit, and inside their clamp ranges in any mode.
 -/
 import RosuModel.Props.C04DecodedTiming
 import RosuModel.Props.C04DecodedIeee
 import RosuModel.Props.C12Ieee
+import RosuModel.Lemmas.FloatDivAnti
 set_option linter.unusedSectionVars false
 namespace Rosu.C04
 open Rosu Scalar Encode EncodeLines RtTiming DecodedObj
@@ -22,6 +25,35 @@ theorem timingConsts_float : TimingConsts Float where
   negMax := by decide +kernel
   six := ⟨by decide +kernel, by decide +kernel, by decide +kernel⟩
   sixty := ⟨by decide +kernel, by decide +kernel, by decide +kernel⟩
+
+/-! ### the arithmetic law `SvLaws` for IEEE doubles -/
+
+theorem negHundred_finite_float : FMO.isFiniteNonzero (-100 : Float).toModel.unpack = true := by decide +kernel
+
+/-- **`−100 / v` for `lo ≤ v ≤ 10`** (`lo > 0`, with `−100 / lo` and `−100 / 10` inside the beat-length limits — closed facts
+about `lo`): IEEE division of a negative number is monotone in a positive denominator (`FAM.div_le_div_left_neg_float`), so
+`−100/lo ≤ −100/v ≤ −100/10`; hence a number within ±(2³¹−1). -/
+theorem svOk_between_float (lo : Float) (hlo0 : Scalar.lt (0 : Float) lo = true)
+    (hA : Scalar.le (Scalar.ofInt (-i32Max) : Float) ((-100 : Float) / lo) = true)
+    (hB : Scalar.le ((-100 : Float) / (10 : Float)) (Scalar.ofInt i32Max : Float) = true)
+    (v : Float) (h : C12.Between lo (10 : Float) v) : SvOk IeeeRep64 v := by
+  obtain ⟨_, h1, h2⟩ := h
+  have hneg : Scalar.lt (-100 : Float) (0 : Float) = true := by decide +kernel
+  have hv0 : Scalar.lt (0 : Float) v = true := FMO.lt_of_lt_of_le _ _ _ hlo0 h1
+  have l1 := FAM.div_le_div_left_neg_float (-100) lo v negHundred_finite_float hneg hlo0 h1
+  have l2 := FAM.div_le_div_left_neg_float (-100) v 10 negHundred_finite_float hneg hv0 h2
+  have hn : Scalar.isNaN ((-100 : Float) / v) = false := ((FMO.le_iff _ _).mp l1).2.1
+  exact ⟨hn, FMO.not_lt_of_le _ _ (FMO.le_trans _ _ _ hA l1), FMO.not_lt_of_le _ _ (FMO.le_trans _ _ _ l2 hB)⟩
+
+/-- **`SvLaws` is a theorem for IEEE doubles** and the IEEE codec. -/
+theorem svLaws_float : SvLaws Float IeeeRep64 where
+  one := ⟨by decide +kernel, by decide +kernel, by decide +kernel⟩
+  sv := svOk_between_float (0.1 : Float) (by decide +kernel) (by decide +kernel) (by decide +kernel)
+  scroll := svOk_between_float (0.01 : Float) (by decide +kernel) (by decide +kernel) (by decide +kernel)
+
+/-- all laws about the timing block hold of the driver's instance. -/
+theorem timingLaws_float : TimingLaws Float IeeeRep64 :=
+  ⟨C12.nanLaws_float, C12.tpClampLaws_float, timingConsts_float, svLaws_float⟩
 
 section
 variable [Trig Float32]
@@ -66,6 +98,31 @@ theorem decoded_collected_float (bs : List UInt8) (st : BeatmapState Float Float
     (h1 : decodeBytes beatmapDecoder bs = .ok st) (h2 : st.finish = .ok m) (cp : ControlPoints Float)
     (hc : collectSamples m = .ok cp) : C13.Sorted cp ∧ ∀ s ∈ cp.samplePoints, s.customSampleBank ≤ i32Max :=
   ⟨decoded_collected_sorted bs st m h1 h2 cp hc, decoded_collected_custom bs st m h1 h2 cp hc⟩
+
+/-- **decoded_stored_points_rep for `f64` / `f32`, NO hypothesis**: every control point stored in a decoded
+`Beatmap<f64/f32>` satisfies the per-point clauses of `RepTimingMap IeeeRep64`. -/
+theorem decoded_stored_points_rep_ieee (bs : List UInt8) (st : BeatmapState Float Float32)
+    (m : Beatmap Float Float32) (h1 : decodeBytes beatmapDecoder bs = .ok st) (h2 : st.finish = .ok m) :
+    StoredPointsRep IeeeRep64 m := decoded_stored_points_rep_float svLaws_float bs st m h1 h2
+
+/-- **decoded_repTimingMap_partial for `f64` / `f32`: ONLY the residual is left** — a decoded `Beatmap<f64/f32>` whose
+collected times are finite and within the parse limit is `RepTimingMap`. -/
+theorem decoded_repTimingMap_partial_ieee (bs : List UInt8) (st : BeatmapState Float Float32)
+    (m : Beatmap Float Float32) (h1 : decodeBytes beatmapDecoder bs = .ok st) (h2 : st.finish = .ok m)
+    (hct : CollectedTimesInLimit m) : RepTimingMap IeeeRep64 m :=
+  decoded_repTimingMap_partial_float svLaws_float bs st m h1 h2 hct
+
+/-- **timing_lines_accepted_decoded for `f64` / `f32`: only the residual is left.** -/
+theorem timing_lines_accepted_decoded_ieee (bs : List UInt8)
+    (st : BeatmapState Float Float32) (m : Beatmap Float Float32) (h1 : decodeBytes beatmapDecoder bs = .ok st)
+    (h2 : st.finish = .ok m) (hct : CollectedTimesInLimit m) (t : Str) (h : encodeTimingPoints m = .ok t) :
+    ∃ cp, collectSamples m = .ok cp ∧ t = unlines (str "[TimingPoints]" :: (mapEntries m cp).map Entry.line) ∧
+      (∀ e ∈ mapEntries m cp, ∀ st : TimingPointsState Float Float32,
+        parseTimingPoints st (trimEnd e.line) = (.ok (), applyTpLine st (e.read st.general.defaultSampleBank))) ∧
+      ∀ st : TimingPointsState Float Float32,
+        Accepts (fun s l => ((parseTimingPoints s l).2, (parseTimingPoints s l).1.isOk)) st
+          (((mapEntries m cp).map Entry.line).map trimEnd) :=
+  timing_lines_accepted_decoded_float svLaws_float bs st m h1 h2 hct t h
 
 end
 
